@@ -61,13 +61,13 @@ theorem rsum_share (x : Rat) (vals : List String) (h : vals ≠ []) :
 /-! ### row sums -/
 
 /-- the weights of a row sum to the same value after instantiation -/
-theorem rsum_instRow {tbl : Tbl} {row : AList Sym Rat} (h : rowOK tbl row = true)
-    (hne : rowNonEmpty tbl row = true) :
-    rsum (AList.values (instRow tbl (fun p n => p / (n : Rat)) row)) = rsum (AList.values row) := by
+theorem rsum_instRow {fx : Fix} {tbl : Tbl} {row : AList Sym Rat} (h : rowOK fx tbl row = true)
+    (hne : rowNonEmpty fx tbl row = true) :
+    rsum (AList.values (instRow fx tbl (fun p n => p / (n : Rat)) row)) = rsum (AList.values row) := by
   rw [instRow_eq_flatMap h]
   unfold rowNonEmpty at hne
   rw [List.all_eq_true] at hne
-  have hne' : ∀ e ∈ row, slot? tbl e.1 ≠ some [] := by
+  have hne' : ∀ e ∈ row, slot? fx tbl e.1 ≠ some [] := by
     intro e he hs
     have := hne e.1 (List.mem_map.mpr ⟨e, he, rfl⟩)
     rw [hs] at this
@@ -81,7 +81,7 @@ theorem rsum_instRow {tbl : Tbl} {row : AList Sym Rat} (h : rowOK tbl row = true
     simp only [List.map_cons, rsum]
     congr 1
     unfold expand
-    cases hs : slot? tbl e.1 with
+    cases hs : slot? fx tbl e.1 with
     | none => simp [rsum]
     | some vals =>
       simp only [List.map_map]
@@ -99,13 +99,13 @@ theorem rsum_values_div {κ : Type} (d : AList κ Rat) (n : Rat) :
     simp only [List.map_cons, rsum] at ih ⊢
     rw [ih]; ring
 
-theorem rsum_instURow {κ : Type} {tbl : Tbl} {row : AList Sym (AList κ Rat)} (h : rowOK tbl row = true)
-    (hne : rowNonEmpty tbl row = true) :
-    uRowSum (instRow tbl (fun d n => d.map (fun kv => (kv.1, kv.2 / (n : Rat)))) row) = uRowSum row := by
+theorem rsum_instURow {κ : Type} {fx : Fix} {tbl : Tbl} {row : AList Sym (AList κ Rat)} (h : rowOK fx tbl row = true)
+    (hne : rowNonEmpty fx tbl row = true) :
+    uRowSum (instRow fx tbl (fun d n => d.map (fun kv => (kv.1, kv.2 / (n : Rat)))) row) = uRowSum row := by
   rw [instRow_eq_flatMap h]
   unfold rowNonEmpty at hne
   rw [List.all_eq_true] at hne
-  have hne' : ∀ e ∈ row, slot? tbl e.1 ≠ some [] := by
+  have hne' : ∀ e ∈ row, slot? fx tbl e.1 ≠ some [] := by
     intro e he hs
     have := hne e.1 (List.mem_map.mpr ⟨e, he, rfl⟩)
     rw [hs] at this
@@ -119,7 +119,7 @@ theorem rsum_instURow {κ : Type} {tbl : Tbl} {row : AList Sym (AList κ Rat)} (
     simp only [List.map_cons, rsum]
     congr 1
     unfold expand
-    cases hs : slot? tbl e.1 with
+    cases hs : slot? fx tbl e.1 with
     | none => simp [rsum]
     | some vals =>
       simp only [List.map_map]
@@ -140,10 +140,10 @@ theorem rsum_instURow {κ : Type} {tbl : Tbl} {row : AList Sym (AList κ Rat)} (
 section grammar
 variable {S : Type} [DecidableEq S]
 
-theorem tag?_inst_of_produces {tbl : Tbl} {tags : Tags S Unit} (h : rulesOK tbl tags = true)
-    (nt : NT S Unit) {P k : Sym} (hP : okKey tbl P) (hp : produces tbl P k) :
-    tag? (instTags tags tbl) nt k =
-      (tag? tags nt P).map (fun v => match slot? tbl P with
+theorem tag?_inst_of_produces {fx : Fix} {tbl : Tbl} {tags : Tags S Unit} (h : rulesOK fx tbl tags = true)
+    (nt : NT S Unit) {P k : Sym} (hP : okKey fx tbl P) (hp : produces fx tbl P k) :
+    tag? (instTags fx tags tbl) nt k =
+      (tag? tags nt P).map (fun v => match slot? fx tbl P with
         | some vals => v / (vals.length : Rat) | none => v) := by
   unfold tag? instTags
   simp only [lookup_instRules]
@@ -154,48 +154,67 @@ theorem tag?_inst_of_produces {tbl : Tbl} {tags : Tags S Unit} (h : rulesOK tbl 
     rw [lookup_instRow_of_produces (rulesOK_row h hl) hP hp]
     rfl
 
-/-- which heads `allInstSym` lists for a symbol that has a rule -/
-theorem allInstSym_produces {tbl : Tbl} {P : Sym} {hs : List Sym}
-    (e : allInstSym tbl P = some hs) :
-    (∀ k ∈ hs, produces tbl P k) ∧
-    (match slot? tbl P with
+/-- which heads `allInstSym` lists: the program side and the grammar side make the same test -/
+theorem allInstSym_produces {fx : Fix} {tbl : Tbl} {P : Sym} {hs : List Sym}
+    (e : allInstSym fx tbl P = some hs) :
+    (∀ k ∈ hs, produces fx tbl P k) ∧
+    (match slot? fx tbl P with
       | some vals => hs = vals.map (fun v => Sym.const P.ty v)
       | none => hs = [P]) := by
   unfold allInstSym at e
-  by_cases hk : P.kind = .const
-  · rw [if_pos hk] at e
-    cases hl : AList.lookup P.ty tbl with
-    | none => rw [hl] at e; cases e
-    | some vals =>
-      rw [hl] at e
-      simp only [Option.some.injEq] at e
-      have hs' : slot? tbl P = some vals := by simp [slot?, hk, hl]
-      rw [hs']
-      refine ⟨?_, e.symm⟩
-      intro k hk'
-      rw [← e] at hk'
-      obtain ⟨v, hv, rfl⟩ := List.mem_map.mp hk'
-      unfold produces
-      rw [hs']
-      exact ⟨v, hv, rfl⟩
-  · rw [if_neg hk] at e
-    simp only [Option.some.injEq] at e
-    have hs' : slot? tbl P = none := by simp [slot?, hk]
+  have self_case : slot? fx tbl P = none → hs = [P] →
+      (∀ k ∈ hs, produces fx tbl P k) ∧
+      (match slot? fx tbl P with
+        | some vals => hs = vals.map (fun v => Sym.const P.ty v)
+        | none => hs = [P]) := by
+    intro hs' he
     rw [hs']
-    refine ⟨?_, e.symm⟩
+    refine ⟨?_, he⟩
     intro k hk'
-    rw [← e] at hk'
+    rw [he] at hk'
     simp only [List.mem_singleton] at hk'
     unfold produces
     rw [hs']
     exact hk'
+  by_cases hk : P.kind = .const
+  · rw [if_pos hk] at e
+    by_cases hc : fx.isConst P = true
+    · rw [if_pos hc] at e
+      cases hl : AList.lookup P.ty tbl with
+      | none =>
+        rw [hl] at e
+        simp only at e
+        have hs' : slot? fx tbl P = none := by simp [slot?, hc, hl]
+        by_cases h4 : fx.f4 = true
+        · rw [if_pos h4] at e
+          simp only [Option.some.injEq] at e
+          exact self_case hs' e.symm
+        · rw [if_neg h4] at e; cases e
+      | some vals0 =>
+        rw [hl] at e
+        simp only [Option.some.injEq] at e
+        have hs' : slot? fx tbl P = some (fx.vals vals0) := by simp [slot?, hc, hl]
+        rw [hs']
+        refine ⟨?_, e.symm⟩
+        intro k hk'
+        rw [← e] at hk'
+        obtain ⟨v, hv, rfl⟩ := List.mem_map.mp hk'
+        unfold produces
+        rw [hs']
+        exact ⟨v, hv, rfl⟩
+    · rw [if_neg hc] at e
+      simp only [Option.some.injEq] at e
+      exact self_case (by simp [slot?, hc]) e.symm
+  · rw [if_neg hk] at e
+    simp only [Option.some.injEq] at e
+    exact self_case (by simp [slot?, Fix.isConst, hk]) e.symm
 
 mutual
-  theorem mass (tbl : Tbl) (G : TT S Unit) (tags : Tags S Unit)
-      (hG : rulesOK tbl G.rules = true) (hT : rulesOK tbl tags = true)
-      (hne : rulesNonEmpty tbl G.rules = true) :
-      ∀ (t : Prog) (nt : NT S Unit) (l : List Prog), gen G t nt = true → allInst tbl t = some l →
-        rsum (l.map fun t' => prob (inst G tbl) (instTags tags tbl) t' nt) = prob G tags t nt
+  theorem mass (fx : Fix) (tbl : Tbl) (G : TT S Unit) (tags : Tags S Unit)
+      (hG : rulesOK fx tbl G.rules = true) (hT : rulesOK fx tbl tags = true)
+      (hne : rulesNonEmpty fx tbl G.rules = true) :
+      ∀ (t : Prog) (nt : NT S Unit) (l : List Prog), gen G t nt = true → allInst fx tbl t = some l →
+        rsum (l.map fun t' => prob (inst fx G tbl) (instTags fx tags tbl) t' nt) = prob G tags t nt
     | .node P kids, nt, l => by
       intro hg ha
       unfold gen at hg
@@ -207,7 +226,7 @@ mutual
         simp only at hg
         have hok := okKey_of_rule hG hr
         unfold allInst at ha
-        cases e1 : allInstSym tbl P with
+        cases e1 : allInstSym fx tbl P with
         | none => rw [e1] at ha; cases ha
         | some hs =>
           rw [e1] at ha
@@ -225,7 +244,7 @@ mutual
               unfold rowNonEmpty at hrow
               rw [List.all_eq_true] at hrow
               have := hrow P (mem_keys_of_lookup hr)
-              cases hs' : slot? tbl P with
+              cases hs' : slot? fx tbl P with
               | none => rw [hs'] at hshape; cases hshape
               | some vals =>
                 rw [hs'] at hshape this
@@ -234,17 +253,17 @@ mutual
                 | cons v vs => cases hshape
           | cons h0 hs0 =>
             simp only at ha
-            cases e2 : allInstList tbl kids with
+            cases e2 : allInstList fx tbl kids with
             | none => rw [e2] at ha; cases ha
             | some poss =>
               rw [e2] at ha
               simp only [Option.some.injEq] at ha
               rw [← ha]
-              have ih := massList tbl G tags hG hT hne kids args poss hg e2
+              have ih := massList fx tbl G tags hG hT hne kids args poss hg e2
               have hfac : ∀ k ∈ h0 :: hs0, ∀ ks',
-                  prob (inst G tbl) (instTags tags tbl) (Tree.node k ks') nt =
-                    (tag? (instTags tags tbl) nt k).getD 0 *
-                      probList (inst G tbl) (instTags tags tbl) ks' args := by
+                  prob (inst fx G tbl) (instTags fx tags tbl) (Tree.node k ks') nt =
+                    (tag? (instTags fx tags tbl) nt k).getD 0 *
+                      probList (inst fx G tbl) (instTags fx tags tbl) ks' args := by
                 intro k hk ks'
                 unfold prob
                 rw [rule?_inst_of_produces hG nt hok (hprod k hk), hr]
@@ -254,17 +273,17 @@ mutual
               simp only
               congr 1
               -- the heads share the tag of the template symbol
-              have htag : ∀ k ∈ h0 :: hs0, (tag? (instTags tags tbl) nt k).getD 0 =
-                  (match slot? tbl P with
+              have htag : ∀ k ∈ h0 :: hs0, (tag? (instTags fx tags tbl) nt k).getD 0 =
+                  (match slot? fx tbl P with
                     | some vals => (tag? tags nt P).getD 0 / (vals.length : Rat)
                     | none => (tag? tags nt P).getD 0) := by
                 intro k hk
                 rw [tag?_inst_of_produces hT nt hok (hprod k hk)]
                 cases tag? tags nt P with
-                | none => cases slot? tbl P <;> simp
-                | some v => cases slot? tbl P <;> simp
+                | none => cases slot? fx tbl P <;> simp
+                | some v => cases slot? fx tbl P <;> simp
               rw [rsum_map_congr htag]
-              cases hs' : slot? tbl P with
+              cases hs' : slot? fx tbl P with
               | none =>
                 rw [hs'] at hshape
                 rw [hshape]
@@ -275,12 +294,12 @@ mutual
                 have hv : vals ≠ [] := by
                   intro e; subst e; cases hshape
                 exact rsum_share _ vals hv
-  theorem massList (tbl : Tbl) (G : TT S Unit) (tags : Tags S Unit)
-      (hG : rulesOK tbl G.rules = true) (hT : rulesOK tbl tags = true)
-      (hne : rulesNonEmpty tbl G.rules = true) :
+  theorem massList (fx : Fix) (tbl : Tbl) (G : TT S Unit) (tags : Tags S Unit)
+      (hG : rulesOK fx tbl G.rules = true) (hT : rulesOK fx tbl tags = true)
+      (hne : rulesNonEmpty fx tbl G.rules = true) :
       ∀ (ks : List Prog) (args : List (Ty × S)) (poss : List (List Prog)),
-        genList G ks args = true → allInstList tbl ks = some poss →
-        rsum ((product poss).map fun ks' => probList (inst G tbl) (instTags tags tbl) ks' args) =
+        genList G ks args = true → allInstList fx tbl ks = some poss →
+        rsum ((product poss).map fun ks' => probList (inst fx G tbl) (instTags fx tags tbl) ks' args) =
           probList G tags ks args
     | [], [], poss => by
       intro _ ha
@@ -294,21 +313,21 @@ mutual
       unfold genList at hg
       rw [Bool.and_eq_true] at hg
       unfold allInstList at ha
-      cases e1 : allInst tbl k with
+      cases e1 : allInst fx tbl k with
       | none => rw [e1] at ha; cases ha
       | some l =>
-        cases e2 : allInstList tbl ks with
+        cases e2 : allInstList fx tbl ks with
         | none => rw [e1, e2] at ha; cases ha
         | some ls =>
           rw [e1, e2] at ha
           simp only [Option.some.injEq] at ha
           rw [← ha]
-          have ih1 := mass tbl G tags hG hT hne k (t, (s, ())) l hg.1 e1
-          have ih2 := massList tbl G tags hG hT hne ks as ls hg.2 e2
+          have ih1 := mass fx tbl G tags hG hT hne k (t, (s, ())) l hg.1 e1
+          have ih2 := massList fx tbl G tags hG hT hne ks as ls hg.2 e2
           unfold product
           rw [rsum_flatMap_map (fun x r => x :: r) _
-            (fun x => prob (inst G tbl) (instTags tags tbl) x (t, (s, ())))
-            (fun r => probList (inst G tbl) (instTags tags tbl) r as) _ _
+            (fun x => prob (inst fx G tbl) (instTags fx tags tbl) x (t, (s, ())))
+            (fun r => probList (inst fx G tbl) (instTags fx tags tbl) r as) _ _
             (fun a _ b => by simp only [probList])]
           rw [ih1, ih2]
           simp only [probList]
